@@ -1187,7 +1187,7 @@ package runtime
 //@   assert_before_call sendResumeValues: old(t.status) == ThreadOK && $t == old(t.caller) && old(t.caller.status) == ThreadOK && t.status == ThreadSuspended && t.caller == nil && $err == nil && $exception == nil
 
 //@ func (*Thread).end
-//@   prop C09
+//@   prop C09 C05
 //@   arith int
 //@   norte
 //@   nocover
@@ -1196,6 +1196,7 @@ package runtime
 //@   exits any
 //@   assert_before_call sendResumeValues: old(t.status) == ThreadOK && $t == old(t.caller) && $exception == exception
 //@   assert_before_call ReleaseBytes: ghost(wake) == 0   // the thread does not touch the runtime's accounting after handing control back
+//@   assert_before_call cleanupCloseStack: exception == nil   // (C05) a coroutine that ends because its context was terminated runs no __close handler: the termination cannot be followed by more Lua code of that context
 //@   ensures ghost(wake) == 1
 
 // ---------------------------------------------------------------------------
